@@ -485,14 +485,16 @@ def rule_refusal(check):
                     conj.append("?" + hir.describe(e))
     check.expect(ok and sorted(conj) == ["span != DUMMY_SP", "starts_with"], R, R + "/clash-predicate", hir.loc(dup.rec), "clash = any user identifier (non-dummy span) starting with the reserved prefix", "clash predicate is %s" % conj)
     t = prog.fn("rewriter::transform_js")
-    errs = []
-    for m in hir.walk(t.body):
-        if m.get("k") == "Match" and (hir.place(m["scrut"]) or "").endswith(".status"):
-            for a in m["arms"]:
-                v = hir.pat_variant(a["pat"])
-                if isinstance(v, str) and v.endswith("Status::Cancelled"):
-                    b = hir.peel(a["body"])
-                    errs.append(b.get("k") == "Call" and (hir.peel(b["f"]).get("res", {}).get("ctor_path") or "").split("::")[-1] == "Err")
+    from .. import boolform as BF
+
+    err_nodes = [x for x in hir.walk(t.body) if x.get("k") == "Call" and (hir.peel(x["f"]).get("res", {}).get("ctor_path") or "").split("::")[-1] == "Err"]
+    can = BF.atom("is:Status::Cancelled")
+    errs = [True] if any(BF.entails(S.status_premises(prog, t, t.conds_at(x)), can, exhaustive=S.STATUS_EXH) for x in err_nodes) else []
+    # nothing else is returned for a cancelled rewrite: every Ok(..)/printed result excludes Cancelled
+    for x in hir.walk(t.body):
+        if x.get("k") == "Struct" and (x["res"].get("path") or "").endswith("RewrittenOutput") or (hir.is_call(x) and (hir.callee_name(x) or x.get("method")) == "print" and "Compiler" in ((x.get("callee") or {}).get("path") or "")):
+            if not BF.entails(S.status_premises(prog, t, t.conds_at(x)), BF.neg(can), exhaustive=S.STATUS_EXH):
+                errs = [False]
     check.expect(errs == [True], R, R + "/cancelled-is-error", hir.loc(t.rec), "Cancelled -> Err, nothing printed", "a cancelled rewrite is not turned into an error")
 
 
